@@ -123,6 +123,8 @@ def run(chk, args):
     # twin runs: the same gated behaviour with every client poll sent as a versioned POST
     twins = []
     for s_ in scen:
+        s_["bridges"] = s_.get("bridges") or ["default", "b2"]   # both runs of a pair use the same configuration
+        s_["rollover"] = False
         t = json.loads(json.dumps(s_))
         t["id"] = s_["id"] + 100000
         t["via"] = {c: "post" for c in s_["via"]}
